@@ -11,8 +11,9 @@ MC : SvgPathLaws  - the algebraic identities a path minifier relies on (abs<->re
      SvgPathGen   - token-level generator automaton of path data (carries the interpreter state);
                     exhaustive to MaxTok tokens, random walks (-simulate) to 120 tokens.
      SvgDocGen    - token-level generator automaton of documents (nesting, attributes, text).
-RUN: harness/cmd/c05 renders nothing itself: it gets bytes, calls the real public API
-     (svg.Minify through minify.M; html.Minify with the SVG minifier registered for inline SVG)
+     SvgCallSeq   - every order of standalone / inline calls on one registered minifier instance (up to 4).
+RUN: harness/cmd/c05 renders nothing itself: it gets bytes, calls the real public API (ONE minify.M with
+     ONE registered *svg.Minifier and *html.Minifier per session; inline SVG goes through the HTML minifier)
      and projects input and output with encoding/xml / x/net/html.
 TV : C05Trace evaluates, in TLC, PathVerdict (PathGrammar on the output bytes, Interp on both
      sides, PathEq on the normalised absolute segments) for every `d` attribute and the document
@@ -36,7 +37,8 @@ EXCLUSIONS = {
     'deg-smooth': 'smooth curveto directly after a curve whose control points coincide exactly with its end points',
     'zeroL-smooth': 'lineto (or curve that simplifies to a line) of length zero directly after a curve',
     'exp100': 'number whose shortest form has an exponent that ends in 00 (1e100)',
-    'prefixed-attr': 'xlink: / xml: attributes',
+    'xlink-attr': 'xlink: attributes',
+    'xml-attr': 'xml: attributes (xml:space, xml:lang)',
     'text-join': 'blank at the edge of character data inside a text element next to a child element',
     'defs-1attr': 'childless defs element with exactly one attribute',
     'svg-prefix-end': 'svg:-prefixed element with a separate end tag',
@@ -550,8 +552,9 @@ def path_gen_cfg(ctx, maxtok, sim, big=False):
 def doc_gen_cfg(ctx, kind, maxtok, maxdepth):
     sim = kind == 'sim'
     ats = 'AtsAll' if sim else 'AtsSmall'
-    if sim and excluded('prefixed-attr'):
-        ats = 'AtsNoPrefixed'
+    if sim:
+        ats = {(True, True): 'AtsNoPrefixed', (True, False): 'AtsNoXlink', (False, True): 'AtsNoXml',
+               (False, False): 'AtsAll'}[(excluded('xlink-attr'), excluded('xml-attr'))]
     return write_cfg(ctx, 'SvgDocGen_run_%s.cfg' % kind, '\n'.join([
         'SPECIFICATION Spec',
         'CONSTANTS MaxTok = %d' % maxtok,
@@ -870,7 +873,10 @@ def confirm(ctx, exe, cases, lines, why):
     fresh registry is retried after a call history (its own short session, else minimal standalone/inline
     probes): the witness then names the history.  What still does not reproduce is exit 2."""
     # the shortest rejected inputs make the best witnesses; at most 40 lines are re-run and reported
-    order = sorted(why, key=lambda i: (len(lines[i]), i))[:40]
+    # (the pinned witnesses of known findings are always re-run and do not count against the 40)
+    pinned_ids = set(c['id'] for c in cases if c.get('origin') == 'known')
+    pin = [i for i in sorted(why) if json.loads(lines[i])['id'] in pinned_ids]
+    order = pin + sorted((i for i in why if i not in set(pin)), key=lambda i: (len(lines[i]), i))[:40]
     ctx.coverage['rejections_rerun'] = len(order)
 
     def variants(i, history):
@@ -1038,7 +1044,11 @@ def run(ctx):
              'changed the attribute bytes / the projected event sequence. Paths: every token string of the generator '
              'automaton SvgPathGen up to the exhaustive bound (quick: a seeded share) and TLC -simulate walks to 120 '
              'tokens, rendered in seeded lexical styles (separators, sign/dot adjacency, exponents, compact arc flags, '
-             'implicit repetition), plus the inputs of pathdata_test.go / svg_test.go, the fuzz corpora and _benchmarks. '
+             'implicit repetition); curve commands also from forcing templates (first control point = mirror image of the '
+             'previous one, control points on end points) in the walks and, exhaustively over {0,1}, for M + two groups; '
+             'plus the inputs of pathdata_test.go / svg_test.go, the fuzz corpora and _benchmarks. All calls of a run go, in '
+             'seeded order, through ONE registry with one registered *svg.Minifier / *html.Minifier (standalone and inline '
+             'interleaved); every standalone/inline call order up to 4 (TLC, SvgCallSeq) also on fresh registries. '
              'Geometry is evaluated when the input fits 32-bit fixed point (else grammar only). Not generated while the '
              'known findings are open: ' + '; '.join('%s = %s' % (k, v) for k, v in EXCLUSIONS.items() if excluded(k)),
         samples=samples,
